@@ -488,6 +488,9 @@ var _ = io.EOF
 
 // PendingB2Cchunks counts undelivered downstream chunks for a stream alias.
 func (l *Link) PendingB2Cchunks(alias uint32) int {
+	if len(l.b2cMsg) == 0 {
+		return 0
+	}
 	n := 0
 	for _, m := range l.b2cMsg {
 		if c, ok := m.(*message.DownstreamChunk); ok && c.StreamIDAlias == alias {
